@@ -572,7 +572,7 @@ def _sym_for(E, node, st, bs, guard, ev, idx, n, invs, fname, ordinal, itv=None)
     i = bs[0]
     lineno = node.lineno
     # --- discovery run: which variables / heap fields / ghosts does one iteration change, and with which types?
-    mods, heap_mods, ghost_mods, tainted = _discover(E, node, st, i, guard, ev)
+    mods, heap_mods, ghost_mods, tainted, heap_objs = _discover(E, node, st, i, guard, ev)
     kname = "k"
 
     def inv_goal(s, kval):
@@ -600,6 +600,16 @@ def _sym_for(E, node, st, bs, guard, ev, idx, n, invs, fname, ordinal, itv=None)
             s.env[name] = SVal(nv.t, nv.ty, old.origin if isinstance(old, SVal) else None)
         for key in heap_mods:
             if key in s.heap:
+                objs = heap_objs.get(key)
+                if objs is not None:
+                    # the loop writes this field only at these (loop-independent) objects: everything else is framed
+                    arr = s.heap[key]
+                    for o in objs:
+                        fv = z3.Const(E.fresh_name(f"{tag}_{key[0]}"), arr.range())
+                        _wf_value(E, key, fv)
+                        arr = z3.Store(arr, o, fv)
+                    s.heap[key] = arr
+                    continue
                 s.heap[key] = z3.Const(E.fresh_name(f"H{tag}_{key[0]}"), s.heap[key].sort())
                 from .calls import _wf_heap_key
                 _wf_heap_key(E, s, key)
@@ -666,6 +676,7 @@ def _discover(E, node, st, i, guard, ev):
     saved_paths = E.paths
     names = _assigned_names(node.body) | _assigned_names([ast.Assign(targets=[node.target], value=ast.Constant(0), lineno=0)])
     mods, heap_mods, ghost_mods, tainted = {}, set(), set(), []
+    heap_objs = {}
     try:
         # two rounds so that types of values that only appear after the first iteration are seen
         cur = [s]
@@ -690,8 +701,15 @@ def _discover(E, node, st, i, guard, ev):
                         pass
                 for key, arr in o.heap.items():
                     if key not in st.heap or st.heap[key] is not arr:
-                        if key in st.heap or True:
-                            heap_mods.add(key)
+                        heap_mods.add(key)
+                        objs = _store_chain(arr, st.heap.get(key), [i])
+                        if objs is None:
+                            heap_objs[key] = None
+                        elif heap_objs.get(key, []) is not None:
+                            cur_objs = heap_objs.setdefault(key, [])
+                            for ob in objs:
+                                if not any(ob.eq(x) for x in cur_objs):
+                                    cur_objs.append(ob)
                 for g, v in o.ghost.items():
                     if st.ghost.get(g) is None or st.ghost[g].t is not v.t:
                         ghost_mods.add(g)
@@ -720,7 +738,40 @@ def _discover(E, node, st, i, guard, ev):
         if mods[name] is NONE:
             del mods[name]
     # loop target variables get fresh values anyway; an accumulator initialised to an untyped [] gets its discovered type
-    return mods, heap_mods, ghost_mods, tainted
+    return mods, heap_mods, ghost_mods, tainted, heap_objs
+
+
+def _store_chain(arr, base, loop_vars):
+    """arr == Store(...Store(base, o1, v1)..., on, vn) -> [o1..on] when no oi mentions a loop variable; else None"""
+    from .values import _mentions
+    objs = []
+    cur = arr
+    for _ in range(64):
+        if base is not None and (cur is base or cur.eq(base)):
+            return objs
+        if z3.is_store(cur):
+            o = cur.arg(1)
+            if _mentions(o, loop_vars):
+                return None
+            objs.append(o)
+            cur = cur.arg(0)
+            continue
+        if base is None and z3.is_const(cur) and cur.decl().name().startswith("H0_"):
+            return objs
+        return None
+    return None
+
+
+def _wf_value(E, key, v):
+    field, tk = key
+    for rec in E.U.records.values():
+        ty = E.U.field_ty(rec.qualname, field)
+        if ty is not None and ty.key == tk:
+            for part, store in (("len", E.axioms), ("cells", E.wf_axioms)):
+                w = E.wf(v, ty, part)
+                if w is not None:
+                    store.append(w)
+            return
 
 
 def x_While(E, node, st):
